@@ -3,7 +3,7 @@
    queries [q_*]; the check runs them with the identity schedule [sched_id]) is Model/Graph.v - the functions the correspondence check runs against
    symboldg.SymbolGraph after every op of every generated history.  The model describes the
    code with the repairs fix-F2 and fix-F15; the behaviour before them is refuted below. *)
-From Gleece Require Import Base.Bytes Model.Graph Proofs.GraphProofs.
+From Gleece Require Import Base.Bytes Model.Graph Proofs.GraphProofs Model.GraphFilter Proofs.GraphFilterProofs.
 Local Open Scope N_scope.
 
 (* --- the invariant linking the adjacency indices (deps / revDeps) to the edge index holds
@@ -149,6 +149,65 @@ Example C17_fixed_remove_edge_example :
   q_edges s 0 = [f2_edge] /\ dedup edesc_eqb (q_edges s 1) = [f2_edge] /\ q_parents s 1 = [0].
 Proof. exact fixed_remove_edge_example. Qed.
 
+(* --- traversals WITH an edge-kind filter (TraversalBehavior.Filtering.EdgeKinds = ks; model:
+   Model/GraphFilter.v): Children / Parents / Descendants through a filter return exactly the
+   plain model's filtered answers, for every filter *)
+Theorem C17_query_children_filtered : forall s ks b,
+  q_children_f s ks b = spq_children_f (abs s) ks b.
+Proof. exact q_children_f_abs. Qed.
+Theorem C17_query_parents_filtered : forall s ks b x,
+  Inv s -> (In x (q_parents_f s ks b) <-> In x (spq_parents_f (abs s) ks b)).
+Proof. exact q_parents_f_abs. Qed.
+Theorem C17_query_descendants_filtered : forall s ks b,
+  q_descendants_f s ks b = spq_descendants_f (abs s) ks b.
+Proof. exact q_descendants_f_abs. Qed.
+
+(* ... the plain model's filtered answers are the kind-filtered edge set's: the children of b
+   through ks are the existing targets of b's listed edges (GetEdges) of a kind in ks, the
+   parents the existing sources; a filter that admits every kind present is no filter *)
+Theorem C17_filtered_children_are_edges : forall sp ks b x,
+  In x (spq_children_f sp ks b) <->
+  exists e, In e (spq_edges sp b) /\ se_from e = b /\ In (se_kind e) ks /\ se_to e = x /\ sp_has sp x = true.
+Proof. exact spq_children_f_edges. Qed.
+Theorem C17_filtered_parents_are_edges : forall sp ks b x,
+  In x (spq_parents_f sp ks b) <->
+  exists e, In e (spq_edges sp b) /\ se_to e = b /\ In (se_kind e) ks /\ se_from e = x /\ sp_has sp x = true.
+Proof. exact spq_parents_f_edges. Qed.
+Theorem C17_filter_admitting_all_children : forall sp ks b,
+  (forall e, In e (sp_edges sp) -> In (se_kind e) ks) -> spq_children_f sp ks b = spq_children sp b.
+Proof. exact spq_children_f_all. Qed.
+Theorem C17_filter_admitting_all_parents : forall sp ks b,
+  (forall e, In e (sp_edges sp) -> In (se_kind e) ks) -> spq_parents_f sp ks b = spq_parents sp b.
+Proof. exact spq_parents_f_all. Qed.
+
+(* ... and the two filtered views agree with each other: x is a child of b through ks iff b is a
+   parent of x through ks *)
+Theorem C17_filtered_children_parents_dual : forall sp ks b x,
+  (In x (spq_children_f sp ks b) /\ sp_has sp b = true) <->
+  (In b (spq_parents_f sp ks x) /\ sp_has sp x = true).
+Proof. exact spq_children_parents_dual. Qed.
+
+(* --- the oracle the check evaluates on the implementation's FILTERED answers (every answer =
+   the plain model's, nothing answered for absent nodes, children/parents duality on the observed
+   rows) accepts the model's observations after every op of every history, for any universe and
+   any set of filters *)
+Theorem C17_filtered_holds : forall sc, sched_ok sc -> forall U FS h,
+  prop_C17_filtered U FS h (observe_run_f sc U FS empty h) = true.
+Proof. exact prop_C17_filtered_model. Qed.
+
+(* non-vacuity: two nodes linked by a fld edge (inserted first) and a ty edge, a second parent
+   through ty only; the oracle rejects a Parents answer that looks at the first edge only *)
+Example C17_filtered_nonvacuous :
+  q_parents_f (run sched_id fdemo) [ETy] 2 = [0; 1] /\
+  q_parents_f (run sched_id fdemo) [EFld] 2 = [0] /\
+  q_children_f (run sched_id fdemo) [ETy] 0 = [2] /\
+  q_parents_f (run sched_id fdemo) [ERef] 2 = [] /\
+  prop_C17_filtered fdemo_U fdemo_FS fdemo (observe_run_f sched_id fdemo_U fdemo_FS empty fdemo) = true /\
+  (let fos := observe_run_f sched_id fdemo_U fdemo_FS empty fdemo in
+   let bad := map (fun r => if fr_hit 2 [ETy] r then Fr 2 [ETy] [] [1] [] else r) (last fos []) in
+   prop_C17_filtered fdemo_U fdemo_FS fdemo (removelast fos ++ [bad]) = false).
+Proof. exact fdemo_nonvacuous. Qed.
+
 Print Assumptions C17_invariant.
 Print Assumptions C17_invariant_step.
 Print Assumptions C17_refines_spec.
@@ -177,3 +236,13 @@ Print Assumptions C17_legacy_stale_version_refuted.
 Print Assumptions C17_legacy_stale_adjacency_refuted.
 Print Assumptions C17_nonvacuous.
 Print Assumptions C17_fixed_remove_edge_example.
+Print Assumptions C17_query_children_filtered.
+Print Assumptions C17_query_parents_filtered.
+Print Assumptions C17_query_descendants_filtered.
+Print Assumptions C17_filtered_children_are_edges.
+Print Assumptions C17_filtered_parents_are_edges.
+Print Assumptions C17_filter_admitting_all_children.
+Print Assumptions C17_filter_admitting_all_parents.
+Print Assumptions C17_filtered_children_parents_dual.
+Print Assumptions C17_filtered_holds.
+Print Assumptions C17_filtered_nonvacuous.
